@@ -8,7 +8,7 @@ import corpus
 
 V = '/verif'
 props = {json.loads(l)['id']: json.loads(l) for l in open(V + '/properties.jsonl')}
-CONTROLS = "m07a m07c m08d m12f m17c m17d m18a m18c m19c".split()
+CONTROLS = "m07a m07c m08d m12e m12f m17c m17d m18a m18c m19c".split()
 
 NOT_BUILT = {
  'C01': "the (B) cross-check with two callers + reader + closer; `mcp.call`'s mapping of closed connections is asserted in the C04 harness (`C01.closed-connection-identified`).",
